@@ -398,7 +398,17 @@ def run_vrptw_solve(desc, ctx):
     M = Model(p)
     customers = _customers(p)
     if desc["as_tuples"]:
-        customers = [(c.id, c.x, c.y, c.demand, c.tw_start, c.tw_end, c.service_time, c.required_vehicles) for c in customers]
+        full = [(c.id, c.x, c.y, c.demand, c.tw_start, c.tw_end, c.service_time, c.required_vehicles) for c in customers]
+        customers = []
+        for t in full:  # trailing fields that equal the documented defaults are left out (shorter tuples are accepted)
+            t = list(t)
+            for default in (1, 0, INF, 0, 0):
+                if len(t) > 3 and t[-1] == default and desc["seed"] % 2:
+                    t.pop()
+                else:
+                    break
+            customers.append(tuple(t))
+        ctx.label(any(len(t) < 8 for t in customers) and "short-tuples")
     kw = {"seed": desc["seed"], "max_iter": desc["max_iter"]}
     if desc["fleet_form"] == "int":
         vehicles = len(M.caps)
@@ -574,7 +584,7 @@ def vrp_machine(ctx, tier):
 
 
 SUBS = [
-    Sub("job_shop", run_job_shop, strategy=lambda tier: jobshops(tier), quick=1000, thorough=5000, workers_quick=4),
-    Sub("vrptw_solve", run_vrptw_solve, strategy=lambda tier: solve_cases(tier), quick=250, thorough=800, workers_quick=4, wall_quick=80.0),
-    Sub("vrp_operators", run_vrp_history, machine=vrp_machine, quick=300, thorough=1500, steps_quick=30, steps_thorough=30, workers_quick=4, wall_quick=80.0),
+    Sub("job_shop", run_job_shop, strategy=lambda tier: jobshops(tier), quick=1000, thorough=2500, workers_quick=4, wall_thorough=420.0),
+    Sub("vrptw_solve", run_vrptw_solve, strategy=lambda tier: solve_cases(tier), quick=250, thorough=500, workers_quick=4, wall_quick=80.0, wall_thorough=420.0),
+    Sub("vrp_operators", run_vrp_history, machine=vrp_machine, quick=300, thorough=1000, wall_thorough=420.0, steps_quick=30, steps_thorough=30, workers_quick=4, wall_quick=80.0),
 ]
